@@ -10,17 +10,21 @@
      usage contract -> the model returns Ok ids /\ length ids = n /\ every id < parts
 
    (Ok excludes Panic and OutOfFuel).  This file only collects: every theorem
-   is closed by [exact] of a lemma of Proofs/C01Collect.v, which projects the
-   theorems of the algorithm's own development.  Where that development proves
+   is closed by [exact] of a lemma of Proofs/C01Collect.v, which derives it from
+   the PROPERTY THEOREMS of the algorithm's own Properties/Cxx.v (by name, so a
+   refactoring inside a development does not reach this file).  The models are
+   the instantiated ones of those files ([C03.rcb_impl], [C09.zcurve_impl_2d],
+   [C10.gridrcb_impl], [C13.ckk_impl], ...).  Where that development proves
    only part of the statement the theorem is named [..._partial] and the
-   comment says what is missing.  Names are qualified (Rcb.rcb, SfcPart.zcurve,
-   ...) because the developments reuse short names. *)
+   comment says what is missing.  Names are qualified (Rcb.box_ok32,
+   SfcPart.zcurve, ...) because the developments reuse short names. *)
 From Coupe Require Import Lib.Prelude Lib.SFloat Lib.Report.
 From Coupe Require Import Model.RandomPart Run.RunC01 Proofs.C01Proofs.
 From Coupe Require Proofs.C01Collect.
-From Coupe Require Model.Rcb Proofs.RcbInst Model.SfcPart Proofs.ZCurveProofs Proofs.SortingProofs
+From Coupe Require Properties.C03 Properties.C09 Properties.C10 Properties.C13.
+From Coupe Require Model.Rcb Proofs.RcbInst Model.SfcPart Proofs.ZCurveProofs
   Model.MultiJagged Proofs.MultiJaggedProofs Model.NumPart Model.Greedy Model.Kk Proofs.NumPartLemmas Lib.Sorting
-  Model.Ckk Model.GridRcb Proofs.GridRcbTree Proofs.GridRcbMedian.
+  Model.Ckk Model.GridRcb Proofs.GridRcbTree Proofs.GridRcbMedian Proofs.GridRcbFloat Run.RunC11.
 From Coq Require Import Floats.SpecFloat Permutation QArith.QArith.
 Import C01Collect.
 Open Scope Z_scope.
@@ -33,73 +37,68 @@ Print Assumptions C01_checker.
 
 (* ---------------------------------------------------------------- Rcb, Rib *)
 
-(* [RcbC.rcb_impl] = Rcb.rcb at the four flags the translator read from
-   recursive_bisection.rs (Gen/RcbGen.v), as in Properties/C03.v. *)
+(* [C03.rcb_impl] = Rcb.rcb at the four flags the translator read from
+   recursive_bisection.rs (Gen/RcbGen.v). *)
 
-(* Without any hypothesis on the float operations, for every fuel, schedule
-   and tolerance: IF the model returns Ok, one id has been written per point
-   and every id is below 2^iter_count. *)
+(* For every fuel, schedule and tolerance: IF the model returns Ok, one id has
+   been written per point and every id is below 2^iter_count. *)
 Theorem C01_rcb_range : forall fuel sched D k tol pts ws p0 p,
-  RcbInst.coords_ok pts -> RcbC.rcb_impl fuel sched D k tol pts ws p0 = Ok p ->
+  RcbInst.coords_ok pts -> C03.rcb_impl fuel sched D k tol pts ws p0 = Ok p ->
   length p = length pts /\ (pts <> [] -> Forall (fun i => (i < 2 ^ N.of_nat k)%N) p).
 Proof. exact RcbC.rcb_range. Qed.
 Print Assumptions C01_rcb_range.
 
-(* PARTIAL.  Under the contract (D >= 1 coordinates per point, binary32 images
-   not NaN, matching lengths) the model returns Ok for EVERY schedule -- no
-   panic, no OutOfFuel -- with every id below 2^iter_count, PROVIDED there is
-   a bounded order embedding [rank] of a set [good] of binary32 values that is
-   closed under the midpoint expression of the source and contains the bounds
-   of the root bounding box; the fuel must exceed the width of the embedding.
-   What is missing: the three hypotheses on [good]/[rank] are true of IEEE
-   binary32 (good = finite, rank = sign-magnitude reading of the bits, width
-   < 2^32) but are NOT discharged for SpecFloat in Proofs/RcbTotal.v, so
-   termination and panic-freedom of the cut search rest on them; the fuel
-   bound is a termination bound, not a tight one (real runs need < 300
-   iterations); weights are i64 (Z), f64 weights are not modelled. *)
-Theorem C01_rcb_partial :
-  forall (good : spec_float -> bool) (rank : spec_float -> Z) (rlo rhi : Z),
-  (forall a b, good a = true -> good b = true ->
-     good (Rcb.f32_mid (Rcb.v_safe_mid RcbC.rcb_variant) a b) = true) ->
-  (forall x y, good x = true -> good y = true -> flt x y = true -> rank x < rank y) ->
-  (forall x, good x = true -> rlo <= rank x <= rhi) ->
-  forall fuel (sched : N -> nat -> Rcb.stree) D k tol pts ws p0,
-  (0 < D)%nat -> Forall (fun pt => length pt = D) pts -> RcbInst.coords_ok pts ->
-  length ws = length p0 -> length pts = length p0 ->
-  (forall bb, Rcb.bbox32 D 0 pts = Some bb ->
-     Forall (fun b => good (fst b) = true /\ good (snd b) = true) bb) ->
-  (1 <= fuel)%nat -> Z.of_nat fuel > rhi - rlo ->
-  exists p, RcbC.rcb_impl fuel sched D k tol pts ws p0 = Ok p
+(* Under the contract (matching lengths, D >= 1 coordinates per point whose
+   binary32 images are not NaN) and the decidable premise [box_ok32] the model
+   returns Ok for EVERY schedule -- no panic, no OutOfFuel -- with one id below
+   2^iter_count per point.  The float hypotheses of the cut search (a bounded
+   order embedding of the finite binary32 values, closed under `min/2 + max/2`)
+   are now DISCHARGED in C03 with Flocq (classical-reals axioms); the fuel
+   bound 2^33 is a termination bound, not a tight one (real searches need
+   < 300 iterations).
+   Still PARTIAL, because one premise is not part of the usage contract:
+   [Rcb.box_ok32 D pts ws = true] -- the root bounding box (f64 min/max of the
+   points, then `as f32`) has finite canonical bounds that enclose the binary32
+   coordinates.  It is evaluated on every case by the run glue of C03/C04 but
+   not proved from "finite f64 coordinates": (i) it needs monotonicity of
+   `as f32` over the f64 fold of the box; (ii) it is FALSE for finite f64
+   coordinates beyond the binary32 range (their image is +-inf): there
+   termination and panic-freedom are only observed by the runs, not proved.
+   Also: weights are i64 (Z); f64 weights are run integer-valued only. *)
+Theorem C01_rcb_partial : forall fuel (sched : N -> nat -> Rcb.stree) D k tol pts ws p0,
+  (0 < D)%nat -> length ws = length p0 -> length pts = length p0 ->
+  Forall (fun pt => length pt = D) pts ->
+  RcbInst.coords_ok pts -> Rcb.box_ok32 D pts ws = true ->
+  Z.of_nat fuel > 2 ^ 33 ->
+  exists p, C03.rcb_impl fuel sched D k tol pts ws p0 = Ok p
             /\ length p = length pts /\ Forall (fun i => (i < 2 ^ N.of_nat k)%N) p.
 Proof. exact RcbC.rcb_collect. Qed.
 Print Assumptions C01_rcb_partial.
 
 (* Rib = the same function applied to the points rotated into the inertia
-   frame.  PARTIAL for the same reason as Rcb, and additionally: the rotation
-   (nalgebra's eigen-decomposition and Householder reflection) is not modelled;
-   [rotated] is the array recorded by the `rib_points` hook, so the statement is
-   about Rib given ANY rotated point set. *)
-Theorem C01_rib_partial :
-  forall (good : spec_float -> bool) (rank : spec_float -> Z) (rlo rhi : Z),
-  (forall a b, good a = true -> good b = true ->
-     good (Rcb.f32_mid (Rcb.v_safe_mid RcbC.rcb_variant) a b) = true) ->
-  (forall x y, good x = true -> good y = true -> flt x y = true -> rank x < rank y) ->
-  (forall x, good x = true -> rlo <= rank x <= rhi) ->
-  forall fuel (sched : N -> nat -> Rcb.stree) D k tol rotated ws p0,
-  (0 < D)%nat -> Forall (fun pt => length pt = D) rotated -> RcbInst.coords_ok rotated ->
-  length ws = length p0 -> length rotated = length p0 ->
-  (forall bb, Rcb.bbox32 D 0 rotated = Some bb ->
-     Forall (fun b => good (fst b) = true /\ good (snd b) = true) bb) ->
-  (1 <= fuel)%nat -> Z.of_nat fuel > rhi - rlo ->
-  exists p, RcbC.rcb_impl fuel sched D k tol rotated ws p0 = Ok p
+   frame.  PARTIAL for the same reason as Rcb ([box_ok32] of the rotated
+   points), and additionally: the rotation (nalgebra's eigen-decomposition and
+   Householder reflection) is not modelled; [rotated] is the array recorded by
+   the `rib_points` hook, so the statement is about Rib given ANY rotated point
+   set.  In particular it says nothing about the rotation step itself, which
+   panics on finite coordinates of magnitude >= ~1e154 (inertia matrix
+   overflows f64: open known finding obb-coordinate-overflow of this check;
+   the same step precedes HilbertCurve and ZCurve, whose theorems below take
+   its outputs -- curve indices, quadrant function -- as data). *)
+Theorem C01_rib_partial : forall fuel (sched : N -> nat -> Rcb.stree) D k tol rotated ws p0,
+  (0 < D)%nat -> length ws = length p0 -> length rotated = length p0 ->
+  Forall (fun pt => length pt = D) rotated ->
+  RcbInst.coords_ok rotated -> Rcb.box_ok32 D rotated ws = true ->
+  Z.of_nat fuel > 2 ^ 33 ->
+  exists p, C03.rcb_impl fuel sched D k tol rotated ws p0 = Ok p
             /\ length p = length rotated /\ Forall (fun i => (i < 2 ^ N.of_nat k)%N) p.
 Proof. exact RcbC.rcb_collect. Qed.
 Print Assumptions C01_rib_partial.
 
 (* ------------------------------------------------------------ HilbertCurve *)
 
-(* [SfcC.hilbert_impl_2d/3d] = SfcPart.hilbert_partition at SPLIT_TOLERANCE and
-   MAX_ORDER of the source (Gen/SfcGen.v), as in Properties/C09.v.  [idx] =
+(* [C09.hilbert_impl_2d/3d] = SfcPart.hilbert_partition at SPLIT_TOLERANCE and
+   MAX_ORDER of the source (Gen/SfcGen.v).  [idx] =
    the curve index of every point (the encoders are C08's subject).
 
    PARTIAL.  Inside the contract (one index per element, part_count >= 1,
@@ -111,29 +110,29 @@ Print Assumptions C01_rib_partial.
    hang" clause for those part counts is NOT proved. *)
 Theorem C01_hilbert_2d_partial : forall order fuel idx ws k p0,
   length idx = length p0 -> (1 <= k)%nat -> (order <= SfcGen.hilbert_max_order_2d)%N ->
-  ((exists p, SfcC.hilbert_impl_2d order fuel idx ws k p0 = Ok p
+  ((exists p, C09.hilbert_impl_2d order fuel idx ws k p0 = Ok p
               /\ length p = length p0 /\ Forall (fun x => (x < N.of_nat k)%N) p)
-   \/ SfcC.hilbert_impl_2d order fuel idx ws k p0 = OutOfFuel)
+   \/ C09.hilbert_impl_2d order fuel idx ws k p0 = OutOfFuel)
   /\ (Forall (fun x => (x < 2 ^ 64)%N) idx -> (k <= 2)%nat -> (66 <= fuel)%nat ->
-      exists p, SfcC.hilbert_impl_2d order fuel idx ws k p0 = Ok p
+      exists p, C09.hilbert_impl_2d order fuel idx ws k p0 = Ok p
                 /\ length p = length p0 /\ Forall (fun x => (x < N.of_nat k)%N) p).
-Proof. exact (SfcC.hilbert_collect _ _). Qed.
+Proof. exact SfcC.hilbert_collect_2d. Qed.
 Print Assumptions C01_hilbert_2d_partial.
 
 Theorem C01_hilbert_3d_partial : forall order fuel idx ws k p0,
   length idx = length p0 -> (1 <= k)%nat -> (order <= SfcGen.hilbert_max_order_3d)%N ->
-  ((exists p, SfcC.hilbert_impl_3d order fuel idx ws k p0 = Ok p
+  ((exists p, C09.hilbert_impl_3d order fuel idx ws k p0 = Ok p
               /\ length p = length p0 /\ Forall (fun x => (x < N.of_nat k)%N) p)
-   \/ SfcC.hilbert_impl_3d order fuel idx ws k p0 = OutOfFuel)
+   \/ C09.hilbert_impl_3d order fuel idx ws k p0 = OutOfFuel)
   /\ (Forall (fun x => (x < 2 ^ 64)%N) idx -> (k <= 2)%nat -> (66 <= fuel)%nat ->
-      exists p, SfcC.hilbert_impl_3d order fuel idx ws k p0 = Ok p
+      exists p, C09.hilbert_impl_3d order fuel idx ws k p0 = Ok p
                 /\ length p = length p0 /\ Forall (fun x => (x < N.of_nat k)%N) p).
-Proof. exact (SfcC.hilbert_collect _ _). Qed.
+Proof. exact SfcC.hilbert_collect_3d. Qed.
 Print Assumptions C01_hilbert_3d_partial.
 
 (* ------------------------------------------------------------------ ZCurve *)
 
-(* [SfcC.zcurve_impl_2d/3d] = SfcPart.zcurve at the chunk guard and the order
+(* [C09.zcurve_impl_2d/3d] = SfcPart.zcurve at the chunk guard and the order
    limit of the source.  For EVERY quadrant function with values < 2^D (the
    box arithmetic is data: `mbr.region(p)` recorded by the hook) and EVERY sort
    oracle (any permutation sorted by the key; ties free): inside the contract
@@ -142,7 +141,7 @@ Print Assumptions C01_hilbert_3d_partial.
 Theorem C01_zcurve_2d : forall q sorter order k n p0,
   ZCurveProofs.sort_contract sorter -> (forall path x, (q path x < 4)%N) ->
   length p0 = n -> (order <= SfcGen.zcurve_max_order_2d)%nat -> (1 <= k)%nat ->
-  exists p, SfcC.zcurve_impl_2d q sorter order k n p0 = Ok p
+  exists p, C09.zcurve_impl_2d q sorter order k n p0 = Ok p
             /\ length p = n /\ Forall (fun x => (x < N.of_nat k)%N) p.
 Proof. exact SfcC.zcurve_collect_2d. Qed.
 Print Assumptions C01_zcurve_2d.
@@ -150,7 +149,7 @@ Print Assumptions C01_zcurve_2d.
 Theorem C01_zcurve_3d : forall q sorter order k n p0,
   ZCurveProofs.sort_contract sorter -> (forall path x, (q path x < 8)%N) ->
   length p0 = n -> (order <= SfcGen.zcurve_max_order_3d)%nat -> (1 <= k)%nat ->
-  exists p, SfcC.zcurve_impl_3d q sorter order k n p0 = Ok p
+  exists p, C09.zcurve_impl_3d q sorter order k n p0 = Ok p
             /\ length p = n /\ Forall (fun x => (x < N.of_nat k)%N) p.
 Proof. exact SfcC.zcurve_collect_3d. Qed.
 Print Assumptions C01_zcurve_3d.
@@ -161,8 +160,10 @@ Print Assumptions C01_zcurve_3d.
    oracle, block decomposition of rayon's scan and order in which the leaves
    draw their number from the atomic counter (ord_ok).
 
-   PARTIAL (1): for EVERY arithmetic, binary64 included: IF the model returns
-   Ok, one id < part_count has been written per element.  What is missing:
+   PARTIAL (1): for EVERY arithmetic -- binary64 with either setting of the
+   Ulps epsilon included, in particular [RunC11.F64impl], the arithmetic the
+   runs of C11 select from the source (C01_multijagged_range_f64impl below) --:
+   IF the model returns Ok, one id < part_count has been written per element.  What is missing:
    that the binary64 model does return -- no-panic is proved for exact
    arithmetic only (below); it would need monotonicity of the f64 cuts. *)
 Theorem C01_multijagged_range_partial :
@@ -174,6 +175,17 @@ Theorem C01_multijagged_range_partial :
   length p = npts /\ Forall (fun x => (x < k)%N) p.
 Proof. exact MjC.mj_range. Qed.
 Print Assumptions C01_multijagged_range_partial.
+
+(* the instance at the arithmetic the correspondence runs of C11 use *)
+Theorem C01_multijagged_range_f64impl_partial :
+  forall (D npts : nat) (wts : list spec_float) sorter blk cxlt root ord (k : N) (m : nat) p0 p,
+  MultiJaggedProofs.root_ok root -> MultiJaggedProofs.sorter_ok sorter cxlt ->
+  MultiJaggedProofs.ord_ok ord (N.to_nat k) ->
+  (1 <= k)%N -> (k < 2 ^ 60)%N -> (1 <= m)%nat -> length p0 = npts ->
+  MultiJagged.multi_jagged RunC11.F64impl D npts wts sorter blk root ord k m p0 = Ok p ->
+  length p = npts /\ Forall (fun x => (x < k)%N) p.
+Proof. exact (MjC.mj_range RunC11.F64impl). Qed.
+Print Assumptions C01_multijagged_range_f64impl_partial.
 
 (* PARTIAL (2): at exact arithmetic (what the code computes when no f64
    operation rounds; weights >= 0) the model returns Ok -- no panic site is
@@ -212,22 +224,22 @@ Print Assumptions C01_kk.
 
 (* --------------------------------------------------- CompleteKarmarkarKarp *)
 
-(* [CkkC.ckk_impl] = Ckk.ckk at the literal read from ckk.rs, as in
-   Properties/C13.v.  Ok => two-way ids for every element; the only other
+(* [C13.ckk_impl] = Ckk.ckk at the literal read from ckk.rs.  Ok => two-way ids for every element; the only other
    answer is NotFound; never a panic, never out of fuel *)
 Theorem C01_ckk : forall ws tol p0,
   Forall (fun w => 0 <= w) ws -> ws <> [] -> Ckk.tol_int (sumZ ws) tol <> None -> length ws = length p0 ->
-  (exists p, CkkC.ckk_impl ws tol p0 = Ok p /\ length p = length ws
+  (exists p, C13.ckk_impl ws tol p0 = Ok p /\ length p = length ws
              /\ Forall (fun x => (x < 2)%N) p)
-  \/ CkkC.ckk_impl ws tol p0 = Err NotFound.
+  \/ C13.ckk_impl ws tol p0 = Err NotFound.
 Proof. exact CkkC.ckk_collect. Qed.
 Print Assumptions C01_ckk.
 
 (* --------------------------------------------------------------- Grid::rcb *)
 
-(* [GridC.gridrcb_impl] = GridRcb.grid_rcb at the literals of the source
-   (Run.RunC10.cfg_impl), as in Properties/C10.v.  For EVERY pool size T (1
-   included), both weight types (fw), every iter_count.
+(* [C10.gridrcb_impl] = GridRcb.grid_rcb at the literals of the source
+   (Run.RunC10.cfg_impl).  For EVERY pool size T (1 included), both weight
+   types ([fw] = I64, or F64 k: exact dyadic f64 weights z*2^-k, the model
+   working on the integers z), every iter_count.
 
    PARTIAL (1), axiom-free: 2-D and 3-D grids with sides >= 1, non-negative
    integer weights, fuel with side < 2^fuel; premise: the float facts about the
@@ -235,9 +247,9 @@ Print Assumptions C01_ckk.
    id < 2^iter_count per cell. *)
 Theorem C01_grid_rcb_partial : forall fuel T fw ds ws k,
   GridRcbTree.wf_grid ds ws -> Forall (fun s => (1 <= s)%nat) ds -> Forall (fun w => 0 <= w) ws ->
-  (forall t, 0 <= t <= sumZ ws -> GridRcbMedian.thr_ok_b fw GridC.tol t = true) ->
+  (forall t, 0 <= t <= sumZ ws -> GridRcbMedian.thr_ok_b fw C10.tol t = true) ->
   Forall (fun s => (s < 2 ^ fuel)%nat) ds ->
-  exists ids, GridC.gridrcb_impl fuel T fw ds ws k (GridRcb.glen ds) = Ok ids
+  exists ids, C10.gridrcb_impl fuel T fw ds ws k (GridRcb.glen ds) = Ok ids
               /\ length ids = GridRcb.glen ds /\ Forall (fun q => (q < 2 ^ N.of_nat k)%N) ids.
 Proof. exact GridC.grid_collect. Qed.
 Print Assumptions C01_grid_rcb_partial.
@@ -248,18 +260,18 @@ Print Assumptions C01_grid_rcb_partial.
    missing with respect to the property's contract ("sums that do not
    overflow"): i64 totals in [2^46, 2^63); arbitrary (non-dyadic-exact) f64 sums. *)
 Theorem C01_grid_rcb_2d_partial : forall fuel T fw w h ws k,
-  (1 <= w)%nat -> (1 <= h)%nat -> length ws = (w * h)%nat -> Forall (fun x => 0 <= x) ws -> Coupe.Proofs.GridRcbFloat.total_ok fw (sumZ ws) ->
+  (1 <= w)%nat -> (1 <= h)%nat -> length ws = (w * h)%nat -> Forall (fun x => 0 <= x) ws -> GridRcbFloat.total_ok fw (sumZ ws) ->
   (w < 2 ^ fuel)%nat -> (h < 2 ^ fuel)%nat ->
-  exists ids, GridC.gridrcb_impl fuel T fw [w; h] ws k (w * h) = Ok ids
+  exists ids, C10.gridrcb_impl fuel T fw [w; h] ws k (w * h) = Ok ids
               /\ length ids = (w * h)%nat /\ Forall (fun q => (q < 2 ^ N.of_nat k)%N) ids.
 Proof. exact GridC.grid_collect_2d. Qed.
 Print Assumptions C01_grid_rcb_2d_partial.
 
 Theorem C01_grid_rcb_3d_partial : forall fuel T fw w h d ws k,
   (1 <= w)%nat -> (1 <= h)%nat -> (1 <= d)%nat -> length ws = (w * h * d)%nat ->
-  Forall (fun x => 0 <= x) ws -> Coupe.Proofs.GridRcbFloat.total_ok fw (sumZ ws) ->
+  Forall (fun x => 0 <= x) ws -> GridRcbFloat.total_ok fw (sumZ ws) ->
   (w < 2 ^ fuel)%nat -> (h < 2 ^ fuel)%nat -> (d < 2 ^ fuel)%nat ->
-  exists ids, GridC.gridrcb_impl fuel T fw [w; h; d] ws k (w * h * d) = Ok ids
+  exists ids, C10.gridrcb_impl fuel T fw [w; h; d] ws k (w * h * d) = Ok ids
               /\ length ids = (w * h * d)%nat /\ Forall (fun q => (q < 2 ^ N.of_nat k)%N) ids.
 Proof. exact GridC.grid_collect_3d. Qed.
 Print Assumptions C01_grid_rcb_3d_partial.
@@ -274,36 +286,24 @@ Print Assumptions C01_random.
 Example C01_nonvacuous : random_part 3 [7;8;9;10]%N = Ok [1;2;0;1]%N.
 Proof. reflexivity. Qed.
 
-(* the hypotheses of C01_rcb_partial are satisfiable: three coincident points
-   at the origin ("coincident points" of the property text), good = {+0},
-   rank = 0; the model bisects them once *)
-Definition ex_good (x : spec_float) : bool := match x with S754_zero false => true | _ => false end.
-Definition ex_origin : list (list spec_float) := repeat [S754_zero false; S754_zero false] 3.
+(* the hypotheses of C01_rcb_partial are satisfiable by a non-trivial input:
+   the doc example of Rcb (4 points, 2 iterations); box_ok32 evaluates to true *)
+Definition ex_pts : list (list spec_float) := map (map f64_of_Z) [[1; 1]; [-1; 1]; [1; -1]; [-1; -1]]%Z.
 Example C01_nonvacuous_rcb_hyps :
-  (forall a b, ex_good a = true -> ex_good b = true ->
-     ex_good (Rcb.f32_mid (Rcb.v_safe_mid RcbC.rcb_variant) a b) = true)
-  /\ (forall x y, ex_good x = true -> ex_good y = true -> flt x y = true -> 0 < 0)
-  /\ (forall bb, Rcb.bbox32 2 0 ex_origin = Some bb ->
-        Forall (fun b => ex_good (fst b) = true /\ ex_good (snd b) = true) bb)
-  /\ RcbInst.coords_ok ex_origin
-  /\ RcbC.rcb_impl 1 Rcb.seq_sched 2 1 (f64_of_Z 0) ex_origin [1; 1; 1] [9; 9; 9]%N = Ok [0; 0; 0]%N.
-Proof.
-  split; [|split; [|split; [|split]]].
-  - intros [[|]| | |] [[|]| | |]; try discriminate; intros _ _; vm_compute; reflexivity.
-  - intros [[|]| | |] [[|]| | |]; try discriminate; intros _ _ H; vm_compute in H; discriminate.
-  - intros bb H. vm_compute in H. injection H as <-. repeat constructor.
-  - repeat constructor.
-  - vm_compute. reflexivity.
-Qed.
+  RcbInst.coords_ok ex_pts /\ Forall (fun pt => length pt = 2%nat) ex_pts
+  /\ Rcb.box_ok32 2 ex_pts [1; 1; 1; 1] = true
+  /\ C03.rcb_impl 400 Rcb.seq_sched 2 2 (f64_of_bits 4587366580439587226%N) ex_pts [1; 1; 1; 1] [9; 9; 9; 9]%N
+     = Ok [3; 1; 2; 0]%N.
+Proof. split; [repeat constructor|]. split; [repeat constructor|]. split; vm_compute; reflexivity. Qed.
 
 (* runs of the other models inside their contracts: more parts than points
    (ZCurve), one heavy element (Greedy, KarmarkarKarp), a quantile search *)
 Example C01_nonvacuous_runs :
-  SfcC.hilbert_impl_2d 3 100 [0;9;18;27;36;45;54;63]%N (repeat (f64_of_Z 1) 8) 4 (repeat 9%N 8)
+  C09.hilbert_impl_2d 3 100 [0;9;18;27;36;45;54;63]%N (repeat (f64_of_Z 1) 8) 4 (repeat 9%N 8)
     = Ok [0;0;1;1;2;2;3;3]%N
-  /\ SfcC.zcurve_impl_2d (fun _ i => nth i [1;0]%N 0%N) Sorting.sort_by_key 2 5 2 [9;9]%N = Ok [1;0]%N
+  /\ C09.zcurve_impl_2d (fun _ i => nth i [1;0]%N 0%N) Sorting.sort_by_key 2 5 2 [9;9]%N = Ok [1;0]%N
   /\ Greedy.greedy [100;1;1;1] 3 [9;9;9;9]%N = Ok [2;1;0;1]%N
   /\ Kk.kk_partition Kk.sort_stable_desc [100;1;1;1] 3 [9;9;9;9]%N = Ok [0;1;1;2]%N
-  /\ GridC.gridrcb_impl 41 1 GridRcb.I64 [4; 4]%nat (repeat 1 16) 2 16
+  /\ C10.gridrcb_impl 41 1 GridRcb.I64 [4; 4]%nat (repeat 1 16) 2 16
      = Ok [0; 0; 1; 1; 0; 0; 1; 1; 2; 2; 3; 3; 2; 2; 3; 3]%N.
 Proof. vm_compute. repeat split; reflexivity. Qed.
